@@ -1307,6 +1307,16 @@ ssize_t simk_write(int fd, const void *b, size_t n)
 	} else {
 		site_gcount[FS_WRITE]++;
 	}
+	if (fd >= 0 && fd < NFDL && libfd[fd] && simk_obs.would_block && !(fcntl(fd, F_GETFL) & O_NONBLOCK)) {
+		/* a write by the library on one of its own descriptors that is in blocking mode and has no room:
+		 * the real call would put the thread to sleep for good */
+		struct pollfd p = { fd, POLLOUT, 0 };
+		if (raw_poll(&p, 1) == 0) {
+			simk_obs.would_block(me, fd);
+			errno = EAGAIN;
+			return -1;
+		}
+	}
 	r = write(fd, b, shorten(fd, n, FS_WRITE));
 	if (simk_obs.fd_event) {
 		int e = errno;
